@@ -253,6 +253,9 @@ func (x *Extractor) controlConds(b *ssa.BasicBlock, e *env) []string {
 		if onF {
 			d = "!(" + d + ")"
 		}
+		if bv.Data != "" {
+			d = "data:" + bv.Data + ":" + d
+		}
 		out = append(out, d)
 	}
 	return out
